@@ -65,6 +65,10 @@ func (x *Exec) doCall(fr *Frame, call *ssa.CallCommon, site ssa.Value, pos token
 			return x.applyContract(c, nil, call.Signature(), args, fv.Id, "call-pre", nt.Obj().Name())
 		}
 	}
+	if c := x.eng.ftBySig[typeKey(call.Value.Type())]; c != nil {
+		x.assumed["FTYPE uniform contract of "+c.Target+" is assumed at calls through the table"] = true
+		return x.applyContract(c, nil, call.Signature(), args, fv.Id, "call-pre", c.Target)
+	}
 	// a set of possible targets may be known from an extern declaration by type string
 	unsupported("dynamic call through %s without a functype contract", typeKey(call.Value.Type()))
 	return nil
